@@ -3,6 +3,10 @@
 
 from jax2onnx._compat.jax import JaxprEqn
 import jax
+import numpy as np
+import onnx_ir as ir
+
+from jax2onnx.ir_utils import ir_dtype_to_numpy
 
 from jax2onnx.converter.typing_support import LoweringContextProtocol
 from jax2onnx.plugins._post_check_onnx_graph import expect_graph as EG
@@ -24,13 +28,24 @@ from jax2onnx.plugins.plugin_system import PrimitiveLeafPlugin, register_primiti
     testcases=[
         {
             "testcase": "round",
-            "callable": lambda x: jax.lax.round(x),
+            "callable": lambda x: jax.lax.round(
+                x, jax.lax.RoundingMethod.TO_NEAREST_EVEN
+            ),
             "input_shapes": [(3,)],
             "post_check_onnx_graph": EG(
                 ["Round:3"],
                 no_unused_inputs=True,
             ),
-        }
+        },
+        {
+            "testcase": "round_away_from_zero",
+            "callable": lambda x: jax.lax.round(x),
+            "input_values": [np.array([0.5, 1.5, 2.5, -2.5, -0.4], dtype=np.float32)],
+            "post_check_onnx_graph": EG(
+                ["Sign:5 -> Mul:5"],
+                no_unused_inputs=True,
+            ),
+        },
     ],
 )
 class RoundPlugin(PrimitiveLeafPlugin):
@@ -46,7 +61,59 @@ class RoundPlugin(PrimitiveLeafPlugin):
         if getattr(out_spec, "producer", None) is not None:
             desired_name = ctx.fresh_name("round_out")
 
-        result = ctx.builder.Round(x_val, _outputs=[desired_name])
+        # ONNX Round is round-half-to-even; lax.round defaults to half-away-from-zero.
+        method = eqn.params.get(
+            "rounding_method", jax.lax.RoundingMethod.AWAY_FROM_ZERO
+        )
+        if int(method) == int(jax.lax.RoundingMethod.TO_NEAREST_EVEN):
+            result = ctx.builder.Round(x_val, _outputs=[desired_name])
+            result.type = out_spec.type
+            result.shape = out_spec.shape
+            ctx.bind_value_for_var(out_var, result)
+            return
+
+        def _like_input(value: ir.Value) -> ir.Value:
+            value.type = x_val.type
+            value.shape = x_val.shape
+            return value
+
+        dtype_enum = getattr(getattr(x_val, "type", None), "dtype", None)
+        np_dtype = ir_dtype_to_numpy(dtype_enum, default=None) or np.float32
+        half = ctx.bind_const_for_var(object(), np.asarray(0.5, dtype=np_dtype))
+
+        # sign(x) * (floor(|x|) + (|x| - floor(|x|) >= 0.5)); exact for every finite x.
+        magnitude = _like_input(
+            ctx.builder.Abs(x_val, _outputs=[ctx.fresh_name("round_abs")])
+        )
+        floored = _like_input(
+            ctx.builder.Floor(magnitude, _outputs=[ctx.fresh_name("round_floor")])
+        )
+        fraction = _like_input(
+            ctx.builder.Sub(magnitude, floored, _outputs=[ctx.fresh_name("round_frac")])
+        )
+        round_up = ctx.builder.GreaterOrEqual(
+            fraction, half, _outputs=[ctx.fresh_name("round_up")]
+        )
+        round_up.type = ir.TensorType(ir.DataType.BOOL)
+        round_up.shape = x_val.shape
+        increment = _like_input(
+            ctx.builder.Cast(
+                round_up,
+                to=int(
+                    dtype_enum.value
+                    if dtype_enum is not None
+                    else ir.DataType.FLOAT.value
+                ),
+                _outputs=[ctx.fresh_name("round_inc")],
+            )
+        )
+        rounded_magnitude = _like_input(
+            ctx.builder.Add(floored, increment, _outputs=[ctx.fresh_name("round_mag")])
+        )
+        sign = _like_input(
+            ctx.builder.Sign(x_val, _outputs=[ctx.fresh_name("round_sign")])
+        )
+        result = ctx.builder.Mul(sign, rounded_magnitude, _outputs=[desired_name])
         result.type = out_spec.type
         result.shape = out_spec.shape
         ctx.bind_value_for_var(out_var, result)
